@@ -390,7 +390,14 @@ def install(I):
         return np_tab["empty"].fn(ctx, B.wrap(zn(a)), DType(a.dtype))
 
     @ext("arange")
-    def _arange(ctx, n, dtype=None):
+    def _arange(ctx, *a, dtype=None):
+        if len(a) == 2:
+            lo, hi = B.zint(a[0]), B.zint(a[1])
+            n = smt.simp(z3.If(hi > lo, hi - lo, 0))
+            return NArr(n, lambda i: B.wrap(smt.simp(lo + B._z(i))), dtype_tag(I, dtype) or "int", "arange")
+        if len(a) != 1:
+            raise Unsupported("numpy.arange with a step")
+        n = a[0]
         return NArr(n if isinstance(n, int) else B.zint(n), lambda i: B.wrap(B._z(i)), dtype_tag(I, dtype) or "int", "arange")
 
     @ext("logical_not")
